@@ -759,6 +759,32 @@ Qed.
 Lemma partial_row_cmds : forall kp g cl nd y, cmds (recycle_partial_row kp g cl nd y) = cmds y.
 Proof. intros kp g cl nd y. unfold recycle_partial_row. destruct (kp && in_flight y); reflexivity. Qed.
 
+(* the unrepaired shape on a benign re-declaration of a step in flight: the row keeps what matters *)
+Lemma full_row_benign : forall cl nd y, in_flight y = true -> Krow y -> NoDup (map fst cl) ->
+  (st y = Checking \/ (holding y = 0%N /\ cl = rclaims y)) ->
+  Krow (recycle_full_row false cl nd y) /\ Vrow (recycle_full_row false cl nd y) /\
+  forall r, row_cmd_used r (recycle_full_row false cl nd y) = row_cmd_used r y.
+Proof.
+  intros cl nd y Hf HK Hnd Hb. unfold recycle_full_row. cbn [andb negb].
+  unfold recycle_zeroes_holding, recycle_failed_to_pending, recycle_replaces_claims. cbn [andb].
+  apply in_flight_true in Hf.
+  assert (E : sstate_eqb (st (set_holding 0 y)) Failed = false)
+    by (proj; destruct Hf as [Hf|Hf]; rewrite Hf; reflexivity).
+  rewrite E.
+  split; [|split].
+  - destruct Hb as [Hc|[Hh Hcl]].
+    + unfold Krow in HK. destruct (cmds y) as [|m [|m2 t]] eqn:Ec.
+      * apply Krow_nil; proj; [exact Ec|rewrite Hc; discriminate|reflexivity].
+      * destruct HK as [HK _]. rewrite Hc in HK. discriminate.
+      * contradiction.
+    + unfold Krow in *. proj. rewrite Hcl. destruct (cmds y) as [|m [|m2 t]].
+      * destruct HK as [HK _]. split; [exact HK|reflexivity].
+      * destruct HK as [K1 [K2 K3]]. split; [exact K1|split; [exact K2|rewrite K3; exact Hh]].
+      * exact HK.
+  - unfold Vrow. proj. exact Hnd.
+  - intro r. unfold row_cmd_used. proj. reflexivity.
+Qed.
+
 Lemma recycle_row_facts : forall cl nd y, cmds y = [] -> st y <> Running -> NoDup (map fst cl) ->
   let z := set_meta (false, nd, false) (set_rclaims cl
              (if sstate_eqb (st (set_holding 0 y)) Failed then set_state_tr Pending (set_holding 0 y)
@@ -778,7 +804,7 @@ Proof.
     + intro r. unfold row_cmd_used. proj. rewrite Hc. reflexivity.
 Qed.
 
-Lemma Inv_step : forall s e, Inv s -> (keep || rej = true \/ quiet_event s e) -> Inv (apply_gen keep rej s e).
+Lemma Inv_step : forall s e, Inv s -> (keep || rej = true \/ calm_event s e) -> Inv (apply_gen keep rej s e).
 Proof.
   intros s e HI Hq. unfold apply_gen. destruct (step_gen keep rej s e) as [s'|] eqn:Es; [|exact HI].
   rewrite (sys_eta s) in HI. destruct e as [m|i|i|i k o|i c|p l g cl nd|i k|i k|i]; simpl in Es.
@@ -879,29 +905,37 @@ Proof.
                 (forall y, core y = core x -> in_flight y = true -> keep = true -> core (f y) = core y) ->
                 (forall y, core y = core x -> in_flight y = false ->
                    Krow (f y) /\ Vrow (f y) /\ forall r, row_cmd_used r (f y) = 0%N) ->
+                (benign_redeclare x g cl -> keep = false -> forall y, core y = core x -> in_flight y = true -> Krow y ->
+                   Krow (f y) /\ Vrow (f y) /\ forall r, row_cmd_used r (f y) = row_cmd_used r y) ->
                 Inv (mkSys (upd d2 i f) (avail s) (threshold s))).
-      { intros d2 f H2 Hkept Hreset.
+      { intros d2 f H2 Hkept Hreset Hben.
         destruct (core_nth _ _ _ _ H2 En) as [x2 [En2 Hx2]].
         assert (HI2 : Inv (mkSys d2 (avail s) (threshold s))) by (eapply Inv_ext; eassumption).
         pose proof HI2 as [HK2 [HV2 _]]. simpl in HK2, HV2.
         pose proof (Forall_nth _ _ _ _ HK2 En2) as HKx2. pose proof (Forall_nth _ _ _ _ HV2 En2) as HVx2.
         destruct (in_flight x2) eqn:Ei2.
-        - (* in flight: only the repaired shape gets here *)
-          assert (Hkeep : keep = true).
-          { destruct Hq as [Hq|Hq].
-            - rewrite (in_flight_core _ _ Hx2) in Ei2. rewrite Ei2, andb_true_r in Erj. rewrite Erj, orb_false_r in Hq. exact Hq.
-            - exfalso. simpl in Hq. rewrite Ef, En in Hq. destruct Hq as [Hq1 Hq2].
-              rewrite (in_flight_core _ _ Hx2) in Ei2. apply in_flight_true in Ei2. destruct Ei2 as [Ei2|Ei2]; [|contradiction].
-              unfold Krow in HKx. rewrite Hq1 in HKx. tauto. }
-          pose proof (Hkept x2 Hx2 Ei2 Hkeep) as Hc2.
-          apply (Inv_local _ _ _ _ _ x2 HI2 En2).
-          + eapply Krow_core; [symmetry; exact Hc2|exact HKx2].
-          + eapply Vrow_core; [symmetry; exact Hc2|exact HVx2].
-          + intro r. rewrite (row_cmd_used_core r _ _ Hc2). lia.
+        - (* in flight: the repaired shape, or a benign re-declaration *)
+          destruct (Bool.bool_dec keep true) as [Hkeep|Hnk].
+          + pose proof (Hkept x2 Hx2 Ei2 Hkeep) as Hc2.
+            apply (Inv_local _ _ _ _ _ x2 HI2 En2).
+            * eapply Krow_core; [symmetry; exact Hc2|exact HKx2].
+            * eapply Vrow_core; [symmetry; exact Hc2|exact HVx2].
+            * intro r. rewrite (row_cmd_used_core r _ _ Hc2). lia.
+          + apply not_true_is_false in Hnk.
+            assert (Hb : benign_redeclare x g cl).
+            { destruct Hq as [Hq|Hq].
+              - exfalso. rewrite (in_flight_core _ _ Hx2) in Ei2. rewrite Ei2, andb_true_r in Erj.
+                rewrite Erj, Hnk in Hq. discriminate.
+              - simpl in Hq. rewrite Ef, En in Hq. destruct Hq as [[Hq1 Hq2]|Hb]; [exfalso|exact Hb].
+                rewrite (in_flight_core _ _ Hx2) in Ei2. apply in_flight_true in Ei2. destruct Ei2 as [Ei2|Ei2]; [|contradiction].
+                unfold Krow in HKx. rewrite Hq1 in HKx. tauto. }
+            destruct (Hben Hb Hnk x2 Hx2 Ei2 HKx2) as [R1 [R2 R3]].
+            apply (Inv_local _ _ _ _ _ x2 HI2 En2); [exact R1|exact R2|].
+            intro r. rewrite (R3 r). lia.
         - destruct (Hreset x2 Hx2 Ei2) as [R1 [R2 R3]].
           apply (Inv_local _ _ _ _ _ x2 HI2 En2); [exact R1|exact R2|].
           intro r. rewrite (R3 r). lia. }
-      destruct (outs_match (sig x) g).
+      destruct (outs_match (sig x) g) eqn:Eom.
       * (* full recycle *)
         unfold recycle_full in Es. destruct (lose_product (db s) x) as [d0|] eqn:El; [|discriminate].
         inversion Es; subst; clear Es. unfold with_db.
@@ -918,6 +952,10 @@ Proof.
            assert (Hnrx : st x <> Running) by (rewrite <- Y1; exact Hnr).
            destruct (Krow_not_running x HKx Hnrx) as [Hc Hh].
            apply recycle_row_facts; [rewrite Y4; exact Hc|exact Hnr|exact Hnd].
+        -- intros [_ Hb] Hk y Hy Hf HKy. rewrite Hk.
+           apply core_inv in Hy. destruct Hy as [Y1 [Y2 [Y3 Y4]]].
+           apply full_row_benign; [exact Hf|exact HKy|exact Hnd|].
+           destruct Hb as [Hc|[Hh Hcl]]; [left; rewrite Y1; exact Hc|right; split; [rewrite Y2; exact Hh|rewrite Y3; exact Hcl]].
       * (* partial recycle *)
         unfold recycle_partial in Es. destruct (lose_product (db s) x) as [d0|] eqn:El; [|discriminate].
         inversion Es; subst; clear Es. unfold with_db.
@@ -937,6 +975,7 @@ Proof.
            ++ apply Krow_nil; proj; [rewrite Y4; exact Hc|rewrite partial_state_pending; discriminate|reflexivity].
            ++ unfold Vrow. proj. exact Hnd.
            ++ intro r. unfold row_cmd_used. proj. rewrite Y4, Hc. reflexivity.
+        -- intros [Hb _]. rewrite Hb in Eom. discriminate.
     + (* new row *)
       inversion Es; subst; clear Es. unfold with_db. destruct HI as [HK [HV HR]]. simpl in *.
       repeat split; simpl.
@@ -1000,7 +1039,7 @@ Proof.
   change (run_gen keep rej s (e :: r)) with (run_gen keep rej (apply_gen keep rej s e) r). rewrite IH. apply apply_avail.
 Qed.
 
-Lemma Inv_run : forall evs s, Inv s -> (keep || rej = true \/ quiet_gen keep rej s evs) -> Inv (run_gen keep rej s evs).
+Lemma Inv_run : forall evs s, Inv s -> (keep || rej = true \/ calm_gen keep rej s evs) -> Inv (run_gen keep rej s evs).
 Proof.
   induction evs as [|e r IH]; intros s HI Hq; [exact HI|].
   change (run_gen keep rej s (e :: r)) with (run_gen keep rej (apply_gen keep rej s e) r).
@@ -1011,7 +1050,7 @@ Qed.
 
 Theorem resources_never_overcommitted_partial_proof :
   forall (s0 : sys) (evs : list event),
-    Inv s0 -> (keep || rej = true \/ quiet_gen keep rej s0 evs) ->
+    Inv s0 -> (keep || rej = true \/ calm_gen keep rej s0 evs) ->
     forall r, (cmd_used r (db (run_gen keep rej s0 evs)) <= availz (avail s0) r)%N.
 Proof.
   intros s0 evs HI Hq r. destruct (Inv_run evs s0 HI Hq) as [_ [_ HR]].
@@ -1276,7 +1315,7 @@ Qed.
 
 (* ghost level, for histories in which no executing step is recycled *)
 Theorem held_step_does_not_run_partial_proof :
-  forall (s0 : sys) (evs : list event), Inv s0 -> (keep || rej = true \/ quiet_gen keep rej s0 evs) ->
+  forall (s0 : sys) (evs : list event), Inv s0 -> (keep || rej = true \/ calm_gen keep rej s0 evs) ->
     let s := run_gen keep rej s0 evs in
     forall i x, nth_error (db s) i = Some x -> has_hash x = false -> step_gen keep rej s (EDispatch i) <> None ->
       forall a ax m, anc (db s) i a -> nth_error (db s) a = Some ax -> In m (cmds ax) -> depth m = 0%N.
@@ -1365,7 +1404,7 @@ Proof.
 Qed.
 
 Theorem db_sum_within_availability_partial :
-  forall (s0 : sys) (evs : list event), Inv s0 -> (keep || rej = true \/ quiet_gen keep rej s0 evs) ->
+  forall (s0 : sys) (evs : list event), Inv s0 -> (keep || rej = true \/ calm_gen keep rej s0 evs) ->
     forall r, used r (db (run_gen keep rej s0 evs)) = cmd_used r (db (run_gen keep rej s0 evs)) /\
               (used r (db (run_gen keep rej s0 evs)) <= availz (avail s0) r)%N.
 Proof.
@@ -1398,6 +1437,31 @@ Proof. constructor; [|constructor]. intros m [Hm|[]] e He. subst m. contradictio
 (* plan (row 0, executing) defines P (1). P runs, defines S (2, gpu:1) and T (3, gpu:1); S runs.
    P ends asking to be deferred and is dispatched again; its rerun detaches S and T and declares
    S again without resources (full recycle of the executing S) and T with gpu:1. T is dispatched. *)
+(* quiet histories are calm *)
+Lemma quiet_calm_event : forall s e, quiet_event s e -> calm_event s e.
+Proof.
+  intros s e H. destruct e; simpl in *; try exact I.
+  destruct (find_label l (db s)) as [i|]; [|exact I].
+  destruct (nth_error (db s) i) as [x|]; [|exact I]. left. exact H.
+Qed.
+
+Lemma quiet_calm : forall keep rej evs s, quiet_gen keep rej s evs -> calm_gen keep rej s evs.
+Proof.
+  intros keep rej. induction evs as [|e r IH]; intros s H; simpl in *; [exact I|].
+  destruct H as [H1 H2]. split; [apply quiet_calm_event; exact H1|apply IH; exact H2].
+Qed.
+
+(* The ordinary history behind D21, in its harmless form: P (1) declares S (2, gpu:1) and T (3, gpu:1), S
+   executes, P is deferred, runs again and declares S and T again WITH THE SAME resources while S still
+   executes. Not quiet, but calm: the partial theorems apply, and T is refused while S holds the gpu. *)
+Definition history_benign_redeclare : list event :=
+  [ EDefine 0 1 0 [] need_DEFAULT; meta_all; EDispatch 1; EReset 1;
+    EDefine 1 2 0 [(1%N, 1%N)] need_DEFAULT; EDefine 1 3 0 [(1%N, 1%N)] need_DEFAULT;
+    meta_all; EDispatch 2; EReset 2;
+    EComplete 1 0 ODefer; meta_all; EDispatch 1; EReset 1;
+    EDefine 1 2 0 [(1%N, 1%N)] need_DEFAULT; EDefine 1 3 0 [(1%N, 1%N)] need_DEFAULT;
+    meta_all ].
+
 Definition witness_claims_replaced : list event :=
   [ EDefine 0 1 0 [] need_DEFAULT; meta_all; EDispatch 1; EReset 1;
     EDefine 1 2 0 [(1%N, 1%N)] need_DEFAULT; EDefine 1 3 0 [(1%N, 1%N)] need_DEFAULT;
